@@ -476,6 +476,45 @@ def run(ctx: Any, prog: Program) -> None:
                   func='_get_file_parts', text='extension split at the last dot')
     else:
         ctx.check('C13.Z4', True, vpk, splitext[0], 'os.path.splitext splits at the last dot', func='_get_file_parts', text='extension split at the last dot')
+    # ---- Z13: the unchanged-content shortcut of FileInfo.write leaves the entry as it was ------------------------------------------------
+    # `if <new checksum> == self.crc: return` skips the storing of the data; every field of the entry (start_data, arch_len, offset,
+    # arch_index) must then still describe the old placement: nothing may have been stored into the entry before that return.
+    ctx.rule('C13.Z13', 'FileInfo.write stores nothing into the entry before its unchanged-content early return', floor=1)
+    fw = vpk.func('FileInfo.write')
+    early = [st for st in fw.body if isinstance(st, ast.If) and any(isinstance(x, ast.Attribute) and x.attr == 'crc' for x in ast.walk(st.test))
+             and st.body and isinstance(st.body[-1], ast.Return)]
+    for st in early:
+        before = fw.body[:fw.body.index(st)]
+        stores = [x for b in before + st.body for x in ast.walk(b) if isinstance(x, ast.Attribute) and isinstance(x.ctx, (ast.Store, ast.Del)) and isinstance(x.value, ast.Name) and x.value.id == fw.args.args[0].arg]
+        stores += [c for b in before + st.body for c in ast.walk(b) if isinstance(c, ast.Call) and isinstance(c.func, ast.Attribute) and isinstance(c.func.value, ast.Attribute)
+                   and isinstance(c.func.value.value, ast.Name) and c.func.value.value.id == fw.args.args[0].arg and c.func.attr in ('append', 'extend', 'clear', 'update', 'pop', 'insert')]
+        ctx.check('C13.Z13', not stores, vpk, stores[0] if stores else st, f'FileInfo.write assigns `{U(stores[0]) if stores else ""}` and can then return early because the checksum is unchanged: the entry keeps its old '
+                  'archive part (arch_len / offset / arch_index) next to a freshly split preload, so read() returns other bytes than were written', func='FileInfo.write', text='entry untouched before the unchanged-content return')
+    if not early:
+        ctx.check('C13.Z13', True, vpk, fw, 'FileInfo.write has no unchanged-content shortcut', func='FileInfo.write', text='no early return on equal checksum')
+
+    # ---- Z12: a listed name leads back to its entry ---------------------------------------------------------------------------------------
+    # FileInfo.filename / iteration / extract_all hand out `_join_file_parts(dir, name, ext)`; every lookup splits a name with `_get_file_parts`.
+    # The two are interpreted (engine.minieval, stdlib path functions modelled by posixpath) on a small family of names: the split of a
+    # joined triple must be that triple again, otherwise the archive lists a name that it cannot find.
+    ctx.rule('C13.Z12', 'joining the parts of a file name and splitting the result gives the same (folder, name, extension)', floor=6)
+    from engine.minieval import MiniEval, Raised, Unsupported
+    mod_fns = {q: fl[0] for q, fl in vpk.all_funcs().items() if '.' not in q}
+    gp, jp = mod_fns.get('_get_file_parts'), mod_fns.get('_join_file_parts')
+    if gp is None or jp is None:
+        raise AnalysisError('Z12: _get_file_parts / _join_file_parts not found in vpk.py')
+    for nm12 in ['a.txt', 'dir/a.txt', '.gitignore', 'dir/.hidden', 'noext', 'dir/sub/noext', 'a.b.c', 'dir/sub/a.b.c', 'x y/z.vmt']:
+        try:
+            me12 = MiniEval({}, mod_fns)
+            parts = me12.inline(gp, [nm12], {}, None)
+            joined = me12.inline(jp, list(parts), {}, None)
+            again = me12.inline(gp, [joined], {}, None)
+        except (Unsupported, Raised) as exc12:
+            ctx.shape('C13.Z12', False, vpk, jp, f'name handling could not be interpreted on {nm12!r} ({exc12})', func='_join_file_parts', text=f'round trip of {nm12!r}')
+            continue
+        ctx.check('C13.Z12', again == parts, vpk, jp, f'{nm12!r} is stored as {parts!r} and listed as {joined!r}, which splits into {again!r}: the archive lists a name that does not lead back to the entry '
+                  '(`vpk[name]` / `name in vpk` fail for a name it has just handed out)', func='_join_file_parts', text=f'round trip of {nm12!r}')
+
     # ---- Z11: nothing is read back from the directory file after write_dirfile has truncated it ------------------------------------------
     ctx.rule('C13.Z11', 'write_dirfile: what is used after the directory file was opened for writing is already in memory (no property that reads the file lazily)', floor=1)
     wd11 = vm['write_dirfile']
@@ -563,6 +602,9 @@ def run(ctx: Any, prog: Program) -> None:
         ctx.shape('C13.Z6', False, vpk, w, 'preload slice bound not recognised', func='FileInfo.write', text='preload bounded to 16 bits')
 
 MUTANTS = [
+    {'id': 'write_splits_preload_before_shortcut', 'file': 'vpk.py', 'find': "        new_checksum = checksum(data)\n\n        if new_checksum == self.crc:", 'replace': "        new_checksum = checksum(data)\n        self.start_data = data[:self.vpk.dir_limit or 0xFFFF]\n\n        if new_checksum == self.crc:", 'expect': 'C13.Z13'},
+    {'id': 'join_parts_skips_blank_stem', 'file': 'vpk.py', 'find': """    return f"{path}{'/' if path else ''}{filename}{'.' if ext else ''}{ext}"\n""", 'replace': """    name = '.'.join(filter(None, (filename, ext)))\n    return '/'.join(filter(None, (path, name)))\n""", 'expect': 'C13.Z12'},
+    {'id': 'ok_join_parts_by_concatenation', 'file': 'vpk.py', 'find': """    return f"{path}{'/' if path else ''}{filename}{'.' if ext else ''}{ext}"\n""", 'replace': """    name = filename + '.' + ext if ext else filename\n    return path + '/' + name if path else name\n""", 'expect': None},
     {'id': 'getitem_cache_keyed_by_raw_argument', 'file': 'vpk.py', 'find': "        path, filename, ext = _get_file_parts(item)\n\n        try:\n            return self._fileinfo[ext][path][filename]\n", 'replace': "        try:\n            return self._cache[item]\n        except (AttributeError, KeyError, TypeError):\n            pass\n        path, filename, ext = _get_file_parts(item)\n\n        try:\n            return self._fileinfo[ext][path][filename]\n", 'expect': 'C13.Z4'},
     {'id': 'footer_compacted_in_directory_order', 'file': 'vpk.py', 'find': "    def __iter__(self) -> Iterator[FileInfo]:\n        \"\"\"Yield all FileInfo objects.\"\"\"", 'replace': "    def _compact_footer(self) -> None:\n        footer = bytearray(self.footer_data)\n        pos = 0\n        for info in self:\n            if info.arch_index is not None or not info.arch_len:\n                continue\n            if info.offset != pos:\n                footer[pos: pos + info.arch_len] = footer[info.offset: info.offset + info.arch_len]\n                info.offset = pos\n            pos += info.arch_len\n        del footer[pos:]\n        self.footer_data = bytes(footer)\n\n    def __iter__(self) -> Iterator[FileInfo]:\n        \"\"\"Yield all FileInfo objects.\"\"\"", 'expect': 'C13.Z10'},
     {'id': 'verify_blockwise_overreads', 'file': 'vpk.py', 'find': "                    chk = checksum(\n                        data.read(self.arch_len),\n                        chk,\n                    )", 'replace': "                    remaining = self.arch_len\n                    while remaining > 0:\n                        block = data.read(min(self.arch_len, 65536))\n                        if not block:\n                            return False\n                        chk = checksum(block, chk)\n                        remaining -= len(block)", 'expect': 'C13.Z5'},
